@@ -249,7 +249,32 @@ const NA_BASELINE: &str = "message loss, duplication, reordering, corruption in 
 
 pub struct C03;
 
+/// Several values in one case are a history: each is encoded and decoded
+/// in turn on one thread (of its own), and each must round-trip.
 fn exec_c03(case: &Case, obs: &mut Obs) -> Result<(), Failure> {
+    if case.values.len() <= 1 {
+        return exec_c03_one(case, obs);
+    }
+    obs.count("probe:round-trip-history");
+    on_fresh_thread(|| {
+        for (i, v) in case.values.iter().enumerate() {
+            let one = Case {
+                values: vec![v.clone()],
+                writer: case.writer.clone(),
+                prefix: case.prefix.clone(),
+                reader: case.reader.clone(),
+            };
+            if let Err(mut f) = exec_c03_one(&one, obs) {
+                f.class = format!("history:{}", f.class);
+                f.detail = format!("value #{i} of {} values round-tripped one after the other: {}", case.values.len(), f.detail);
+                return Err(f);
+            }
+        }
+        Ok(())
+    })
+}
+
+fn exec_c03_one(case: &Case, obs: &mut Obs) -> Result<(), Failure> {
     let v = match case.values.first() {
         Some(v) => v,
         None => return Ok(()),
@@ -408,6 +433,31 @@ impl Scenario for C03 {
                 ctx.obs.sample(|| json!(c2));
             }
             ctx.check::<C03>(&case);
+        }
+        // a history of related messages: near-copies of one message, or two
+        // different messages that a 32-bit fingerprint cannot tell apart
+        {
+            let values: Vec<Value> = if wl.chance(1, 3) {
+                let (x, y, _) = crate::collisions::colliding_pair(&mut wl);
+                let mut v = vec![Value::Msg(x.clone()), Value::Msg(y)];
+                if wl.bool() {
+                    v.push(Value::Msg(x));
+                }
+                v
+            } else {
+                let base = gen_control(&mut wl, &sw, 300);
+                let n = wl.urange(1, 3);
+                let mut v = vec![Value::Msg(base.clone())];
+                v.extend(related_messages(&mut wl, &base, n).into_iter().map(Value::Msg));
+                v
+            };
+            let reader = if sm.bool() { ReaderCfg::Real } else { draw_reader(&mut sm, 64) };
+            ctx.check::<C03>(&Case {
+                values,
+                writer: if sm.bool() { WriterCfg::Real } else { WriterCfg::Vec },
+                prefix: Vec::new(),
+                reader,
+            });
         }
     }
     fn execute(case: &Case, obs: &mut Obs) -> Result<(), Failure> {
